@@ -213,6 +213,17 @@ func JudgeConc(h CHistory) *CVerdict {
 	for _, r := range recs {
 		ops = append(ops, porcupine.Operation{ClientId: r.Client, Input: qIn{r.Op, r.In}, Call: r.Call, Output: r.Out, Return: r.Ret})
 	}
+	// what would a restart at this instant hand out? (a second sequencer over a copy of the datastore)
+	var cloneOrder []string
+	if cp, err := startProc(im.Clone(), h.Bound); err == nil {
+		for i := 0; i < len(accepted)+2; i++ {
+			o := cp.next(names)
+			if o.Kind != "batch" {
+				break
+			}
+			cloneOrder = append(cloneOrder, o.Batch)
+		}
+	}
 	if h.Restart {
 		p.ds.CrashNow()
 		np, err := startProc(im, h.Bound)
@@ -221,6 +232,7 @@ func JudgeConc(h CHistory) *CVerdict {
 		}
 		p = np
 	}
+	var drainOrder []string
 	pending := len(accepted)
 	for _, n := range delivered {
 		pending -= n
@@ -233,16 +245,19 @@ func JudgeConc(h CHistory) *CVerdict {
 		if o.Kind == "err" {
 			return fail("fifo-model", "GetNextBatch failed during the drain: "+o.Err)
 		}
-		if !h.Restart {
-			// without a restart the drain is part of the linearizability check; after a
-			// restart the order of >= 2 reloaded batches is the recorded finding C10-reload-order,
-			// so only conservation is checked there
-			ops = append(ops, porcupine.Operation{ClientId: len(h.Clients), Input: qIn{"next", ""}, Call: call, Output: o.String(), Return: ret})
-		}
+		// the drain (by the live process or by a restarted one) is part of the linearizability check
+		ops = append(ops, porcupine.Operation{ClientId: len(h.Clients), Input: qIn{"next", ""}, Call: call, Output: o.String(), Return: ret})
 		if o.Kind == "empty" {
 			break
 		}
 		delivered[o.Batch]++
+		drainOrder = append(drainOrder, o.Batch)
+	}
+	// the relative order of pending batches must not depend on whether the process restarted:
+	// the copy restarted before the drain must hand out the same sequence as the drain itself
+	v.hits["restart-order-agrees"]++
+	if strings.Join(cloneOrder, ",") != strings.Join(drainOrder, ",") {
+		return fail("restart-order-agrees", fmt.Sprintf("pending batches come out as %v from the running process but as %v from a sequencer restarted over a copy of the same datastore", drainOrder, cloneOrder))
 	}
 	// conservation: accepted == delivered, each exactly once; nothing rejected ever comes out
 	v.hits["conservation"]++
